@@ -31,6 +31,11 @@ fn main() {
             Err(e) => { eprintln!("{e:#}"); std::process::exit(1) }
         }
     }
+    if args[1] == "reload-exec" {
+        std::panic::set_hook(Box::new(|_| {}));
+        art::reload_exec(std::path::Path::new(&args[2]), args[3] == "1");
+        return;
+    }
     // silence the default panic message: panics are caught per case and reported
     std::panic::set_hook(Box::new(|_| {}));
     let seed: u64 = arg(&args, "--seed", "1").parse().unwrap();
